@@ -110,3 +110,131 @@ Proof.
   split; [apply bytes_okb_spec; vm_compute; reflexivity|].
   do 2 eexists. split; [vm_compute; reflexivity|]. split; [vm_compute; reflexivity|]. reflexivity.
 Qed.
+
+(* ------------------------------------------------------------------ address oracles *)
+From BU Require Import Model.CborEnc Model.AddrAdaShelley Model.AddrAdaByron.
+From BU Require Lemmas.CborEnc.
+
+Record abackend := {
+  blake224 : list N -> list N;
+  sha3 : list N -> list N;
+  chacha_enc : list N -> list N -> list N -> list N -> list N;
+  chacha_dec : list N -> list N -> list N -> list N -> list N -> option (list N);
+  crc32 : list N -> N;
+  parse_outer : list N -> option (N * list N * N);
+  parse_payload : list N -> option (list N * option (list N) * N);
+  parse_bytes : list N -> option (list N);
+  b32_enc : list N -> list N -> list N;
+  b32_dec : list N -> list N -> option (list N) }.
+
+(* Blake2b-224 length; the Bech32 text layer decodes what it encodes *)
+Definition shelley_laws (a : abackend) : Prop :=
+  (forall x, length (blake224 a x) = 28%nat) /\ (forall hrp b, b32_dec a hrp (b32_enc a hrp b) = Some b).
+(* byte-ness and length of the oracle outputs, AEAD decrypt-after-encrypt, cbor2 inverting RFC 8949 on the
+   three shapes of a Byron address (for inputs below 4096 bytes) *)
+Definition byron_laws (a : abackend) : Prop :=
+  (forall x, length (blake224 a x) = 28%nat) /\ (forall x, bytes_ok (blake224 a x)) /\
+  (forall k n d p, bytes_ok (chacha_enc a k n d p)) /\
+  (forall k n d p, length (chacha_enc a k n d p) = (length p + 16)%nat) /\
+  (forall k n d p, bytes_ok p ->
+     chacha_dec a k n d (drop_last 16 (chacha_enc a k n d p)) (take_last 16 (chacha_enc a k n d p)) = Some p) /\
+  (forall p, (length p < 4096)%nat ->
+     parse_outer a (AddrAdaByron.addr_cbor (crc32 a) p) = Some (ada_byron_payload_tag, p, crc32 a p)) /\
+  (forall rh enc ty, (length rh < 4096)%nat -> ty < 2 ^ 64 ->
+     (match enc with Some e => (length e < 4000)%nat | None => True end) ->
+     parse_payload a (payload_cbor rh enc ty) = Some (rh, option_map cbor_bytes enc, ty)) /\
+  (forall b, (length b < 4096)%nat -> parse_bytes a (cbor_bytes b) = Some b).
+
+Definition sh_encode o a := AddrAdaShelley.encode_payment (blake224 a) (G o) (pdec o) (b32_enc a).
+Definition sh_decode a := AddrAdaShelley.decode_payment (b32_dec a).
+Definition st_encode o a := AddrAdaShelley.encode_staking (blake224 a) (G o) (pdec o) (b32_enc a).
+Definition st_decode a := AddrAdaShelley.decode_staking (b32_dec a).
+Definition shelley_address o a :=
+  AddrAdaShelley.shelley_address (blake224 a) (G o) (pdec o) (b32_enc a) (derive o (kh_derivator o)).
+Definition shelley_staking_address o a :=
+  AddrAdaShelley.shelley_staking_address (blake224 a) (G o) (pdec o) (b32_enc a) (derive o (kh_derivator o)).
+Definition cip1852_account o := AddrAdaShelley.cip1852_account (derive o (kh_derivator o)).
+Definition byron_encode_key a := AddrAdaByron.encode_key (sha3 a) (blake224 a) (crc32 a).
+Definition byron_root_hash a := AddrAdaByron.root_hash (sha3 a) (blake224 a).
+Definition byron_decode a := AddrAdaByron.decode_addr (crc32 a) (parse_outer a) (parse_payload a) (parse_bytes a).
+Definition byron_encrypt_path a := AddrAdaByron.encrypt_path (chacha_enc a).
+Definition byron_decrypt_path a := AddrAdaByron.decrypt_path (chacha_dec a).
+Definition byron_get_address o a :=
+  AddrAdaByron.get_address (sha3 a) (blake224 a) (pbkdf2 o) (chacha_enc a) (crc32 a) (G o) (pdec o) (derive o (by_derivator o)).
+Definition byron_path_from_address o a :=
+  AddrAdaByron.hd_path_from_address (pbkdf2 o) (chacha_dec a) (crc32 a) (parse_outer a) (parse_payload a) (parse_bytes a).
+
+(* ---- concrete address oracles for the Examples ---- *)
+Definition toy_b32_enc (hrp b : list N) : list N := hrp ++ [49] ++ b.
+Definition toy_b32_dec (hrp s : list N) : option (list N) :=
+  if list_eqb (firstn (length hrp + 1) s) (hrp ++ [49]) then Some (skipn (length hrp + 1) s) else None.
+Definition toy_tag : list N := repeat 7 16.
+Definition atoy : abackend := {|
+  blake224 := fun x => ToyZl.toy_hashn 28 x;
+  sha3 := fun x => ToyZl.toy_hashn 32 x;
+  chacha_enc := fun k n d p => map (fun x => x mod 256) p ++ toy_tag;
+  chacha_dec := fun k n d c t => if list_eqb t toy_tag then Some c else None;
+  crc32 := fun b => N.of_nat (length b) mod 2 ^ 32;
+  parse_outer := Lemmas.CborEnc.toy_parse_outer;
+  parse_payload := Lemmas.CborEnc.toy_parse_payload;
+  parse_bytes := Lemmas.CborEnc.toy_parse_bytes;
+  b32_enc := toy_b32_enc; b32_dec := toy_b32_dec |}.
+
+Lemma map_mod_ok (p : list N) : bytes_ok (map (fun x => x mod 256) p).
+Proof. induction p; simpl; constructor; [apply N.mod_lt; discriminate|assumption]. Qed.
+Lemma map_mod_id (p : list N) : bytes_ok p -> map (fun x => x mod 256) p = p.
+Proof. induction 1; simpl; [reflexivity|]. rewrite N.mod_small by assumption. f_equal; assumption. Qed.
+
+Lemma atoy_laws_proof : shelley_laws atoy /\ byron_laws atoy.
+Proof.
+  split; [split|].
+  - intros x. apply ToyZl.toy_hashn_len.
+  - intros hrp b. unfold atoy, b32_dec, b32_enc, toy_b32_dec, toy_b32_enc.
+    rewrite app_assoc.
+    replace (length hrp + 1)%nat with (length (hrp ++ [49])) by (rewrite app_length; reflexivity).
+    rewrite firstn_app, Nat.sub_diag, firstn_all. cbn [firstn]. rewrite app_nil_r, list_eqb_refl.
+    rewrite skipn_app, Nat.sub_diag, skipn_all. reflexivity.
+  - refine (conj _ (conj _ (conj _ (conj _ (conj _ (conj _ (conj _ _))))))).
+    + intros x. apply ToyZl.toy_hashn_len.
+    + intros x. apply ToyZl.toy_hashn_ok.
+    + intros k n d p. cbn. apply bytes_ok_app; split; [apply map_mod_ok|]. repeat constructor; lia.
+    + intros k n d p. cbn. rewrite app_length, map_length. reflexivity.
+    + intros k n d p Hp. cbn [atoy chacha_enc chacha_dec]. rewrite (map_mod_id p Hp).
+      rewrite (drop_last_app' 16 p toy_tag eq_refl), (take_last_app' 16 p toy_tag eq_refl), list_eqb_refl. reflexivity.
+    + intros p Hp. cbn [atoy parse_outer crc32]. unfold AddrAdaByron.addr_cbor.
+      apply (Lemmas.CborEnc.toy_parse_outer_enc (fun b => N.of_nat (length b) mod 2 ^ 32)); [exact Hp|reflexivity|].
+      assert (N.of_nat (length p) mod 2 ^ 32 < 2 ^ 32) by (apply N.mod_lt; discriminate).
+      assert (2 ^ 32 < 2 ^ 64) by reflexivity. lia.
+    + intros rh enc ty. apply Lemmas.CborEnc.toy_parse_payload_enc.
+    + intros b. apply Lemmas.CborEnc.toy_parse_bytes_enc.
+Qed.
+
+Definition toy_net : ada_net := nth 0 ada_nets (0, [], []).
+
+Lemma toy_addresses_proof :
+  In toy_net ada_nets /\
+  exists m acct, ic_from_seed toy toy_seed = Ok m /\ cip1852_account toy m 0 = Ok acct /\
+    (exists s, shelley_address toy atoy toy_net acct 0 5 = Ok s) /\
+    (exists s, shelley_staking_address toy atoy toy_net acct = Ok s) /\
+    exists mb addr, by_from_seed toy 10 toy_seed = Ok mb /\
+      byron_get_address toy atoy mb 3 (2 ^ 31 + 4) = Ok addr /\
+      byron_path_from_address toy atoy mb addr = Ok [2 ^ 31 + 3; 2 ^ 31 + 4].
+Proof.
+  split; [left; reflexivity|].
+  let v := eval vm_compute in (ic_from_seed toy toy_seed) in match v with inl ?m => exists m end.
+  let v := eval vm_compute in (m <- ic_from_seed toy toy_seed ;; cip1852_account toy m 0) in
+    match v with inl ?a => exists a end.
+  split; [vm_compute; reflexivity|]. split; [vm_compute; reflexivity|].
+  split.
+  { let v := eval vm_compute in (m <- ic_from_seed toy toy_seed ;; a <- cip1852_account toy m 0 ;;
+                                 shelley_address toy atoy toy_net a 0 5) in match v with inl ?s => exists s end.
+    vm_compute; reflexivity. }
+  split.
+  { let v := eval vm_compute in (m <- ic_from_seed toy toy_seed ;; a <- cip1852_account toy m 0 ;;
+                                 shelley_staking_address toy atoy toy_net a) in match v with inl ?s => exists s end.
+    vm_compute; reflexivity. }
+  let v := eval vm_compute in (by_from_seed toy 10 toy_seed) in match v with inl ?m => exists m end.
+  let v := eval vm_compute in (mb <- by_from_seed toy 10 toy_seed ;; byron_get_address toy atoy mb 3 (2 ^ 31 + 4)) in
+    match v with inl ?a => exists a end.
+  split; [vm_compute; reflexivity|]. split; vm_compute; reflexivity.
+Qed.
